@@ -70,11 +70,20 @@ def rule_layout(ctx, tu, I, py):
     loops = [n for n in ast.walk(f) if isinstance(n, ast.For)]
     ok = len(loops) == 2 and pyfe.src(loops[0].iter) == "environments" and pyfe.src(loops[1].iter) == "reactions" and \
         loops[1] in ast.walk(loops[0])
+    if not loops:
+        # the same nesting written as one comprehension: the first generator is the slow index
+        comps = [n for n in ast.walk(f) if isinstance(n, ast.ListComp) and len(n.generators) == 2]
+        ok = len(comps) == 1 and [pyfe.src(g.iter) for g in comps[0].generators] == ["environments", "reactions"] and \
+            not any(g.ifs for g in comps[0].generators)
     ctx.check(ok, R, f, f._qual, "km built by `for env: for r: append`", "[env][reaction]", "rate-constant table is not built "
               "environment-major")
     ap = [c for c in pyfe.calls_in(f) if pyfe.call_name(c) == "km.append"]
-    s = pyfe.src(ap[0].args[0]).replace(" ", "") if ap else ""
-    ctx.check(s.startswith("valproc.get_value_in_env(r.kf,env,UnitValue(0,Units(units_system,r.kf_units_dimensions())))") and
+    entry, rv, ev = (ap[0].args[0], pyfe.src(loops[1].target), pyfe.src(loops[0].target)) if ap and len(loops) == 2 else (None, "r", "env")
+    if not loops and ok:
+        entry, ev, rv = comps[0].elt, pyfe.src(comps[0].generators[0].target), pyfe.src(comps[0].generators[1].target)
+    s = pyfe.src(entry).replace(" ", "") if entry is not None else ""
+    ctx.check(s.startswith("valproc.get_value_in_env(%s.kf,%s,UnitValue(0,Units(units_system,%s.kf_units_dimensions())))"
+                           % (rv, ev, rv)) and
               s.endswith(".convert(units_system).value"), R, ap[0] if ap else f, f._qual, "entry = kf of r in env (0 with the right "
               "dimension when absent), converted", "", "entry is not the forward constant of reaction r in environment env")
     ctx.floor(R, 75)      # coverage guard: merged duplicate subscripts lower the count without losing a table
@@ -164,6 +173,10 @@ def rule_env(ctx, tu, py, I):
                     while p is not None and p is not f:
                         if isinstance(p, ast.For) and pyfe.src(p.target) == e.id:
                             lk = pyfe.src(p.iter)
+                        if isinstance(p, (ast.ListComp, ast.GeneratorExp, ast.SetComp, ast.DictComp)):
+                            for g_ in p.generators:
+                                if pyfe.src(g_.target) == e.id:
+                                    lk = pyfe.src(g_.iter)
                         p = pyfe.parent(p)
                     if d is not None and ".environments[" in pyfe.src(d):
                         ok = True
